@@ -42,6 +42,7 @@ type Run struct {
 	fcs  []*FnCtx
 	obls []*Obligation
 	owner map[*Obligation]*FnCtx
+	cg    *CallGraph
 }
 
 func generate(repo string) (*Run, error) {
